@@ -55,6 +55,7 @@ func checkC10(p *Program, r *Report) {
 	c10Make(p, r, m, sums)
 	c10Applied(p, r, m, sums)
 	c10GuardSiblings(p, r, m, sums)
+	c10FailureRaises(p, r, m)
 }
 
 func c10Sinks(p *Program, r *Report, m *vmModel, sums *typeSummaries) {
@@ -1083,4 +1084,100 @@ func c10GuardSiblings(p *Program, r *Report, m *vmModel, sums *typeSummaries) {
 		}
 	}
 	r.Floor("C10.R9", n, 6)
+}
+
+// c10FailureRaises (R10): in the expression, assignment and operator handlers a return that hands back the nil value has raised
+// an error - the only construct whose successful result is the nil value set by the handler itself is the receive from a closed
+// channel. (A refused operation that returns nil silently looks like success to the script.)
+func c10FailureRaises(p *Program, r *Report, m *vmModel) {
+	nilG := m.nilValueGlobal()
+	if nilG == nil {
+		r.Undecided("C10.R10", "nil value", "vm", "the package-level nil value was not identified")
+		return
+	}
+	n := 0
+	for _, role := range []string{"expr", "let", "op"} {
+		var kinds []string
+		for k := range m.handlers[role] {
+			kinds = append(kinds, k)
+		}
+		sort.Strings(kinds)
+		for _, kind := range kinds {
+			h := m.handlers[role][kind]
+			if h == nil || len(h.Blocks) == 0 {
+				continue
+			}
+			tt := newTypeTerms(m, h, nil)
+			k := 0
+			for _, b := range h.Blocks {
+				ret, ok := b.Instrs[len(b.Instrs)-1].(*ssa.Return)
+				if !ok {
+					continue
+				}
+				storesNil := false
+				for _, in := range b.Instrs {
+					if st, ok := in.(*ssa.Store); ok && tt.base != nil && m.cellAddr(st.Addr, tt.base) == "rv" && isGlobalLoad(st.Val, nilG) {
+						storesNil = true
+					}
+				}
+				if !storesNil {
+					continue
+				}
+				n++
+				k++
+				good := c10ErrorBlock(m, tt, b) || closedReceiveEdge(b)
+				r.Check(good, "C10.R10", fmt.Sprintf("%s|nil result #%d comes with an error", h.Name(), k), p.Pos(instrPos(ret)), "an error is raised (or the channel was closed)",
+					"the handler gives up (the result is set to nil and it returns) without raising an error: the refused operation looks like a success that yields nil")
+			}
+		}
+	}
+	r.Floor("C10.R10", n, 45)
+}
+
+// closedReceiveEdge: b is entered on the !ok side of a receive (result #2 of reflect.Select).
+func closedReceiveEdge(b *ssa.BasicBlock) bool {
+	for d := b; d != nil && d.Idom() != nil; d = d.Idom() {
+		id := d.Idom()
+		iff, ok := id.Instrs[len(id.Instrs)-1].(*ssa.If)
+		if !ok {
+			continue
+		}
+		cond := iff.Cond
+		edge := 1
+		if u, ok := cond.(*ssa.UnOp); ok && u.Op == token.NOT {
+			cond, edge = u.X, 0
+		}
+		isOk := false
+		var walk func(v ssa.Value, depth int)
+		walk = func(v ssa.Value, depth int) {
+			if depth > 4 {
+				return
+			}
+			switch x := v.(type) {
+			case *ssa.Extract:
+				if c, ok := x.Tuple.(*ssa.Call); ok && x.Index == 2 {
+					if o := calleeObj(c); o != nil && isFuncNamed(o, "reflect", "", "Select") {
+						isOk = true
+					}
+				}
+			case *ssa.Phi:
+				for _, e := range x.Edges {
+					walk(e, depth+1)
+				}
+			case *ssa.UnOp:
+				if al, ok := x.X.(*ssa.Alloc); ok {
+					for _, ref := range *al.Referrers() {
+						if st, ok := ref.(*ssa.Store); ok && st.Addr == ssa.Value(al) {
+							walk(st.Val, depth+1)
+						}
+					}
+				}
+			}
+		}
+		walk(cond, 0)
+		if isOk && edgeOnly(id, edge, d) {
+			return true
+		}
+	}
+	return false
 }
